@@ -5,7 +5,7 @@ from __future__ import annotations
 import ast
 from typing import Any
 
-from ..astutil import attr_writes
+from ..astutil import attr_writes, call_arg
 from ..cfg import Node, cfg_of, node_calls, walk_own
 from ..closed import resolver
 from ..flow import fmt_path, occurred_before, paths_avoiding
@@ -228,7 +228,7 @@ def run(ctx: Ctx) -> None:
         hh, "device name mismatch -> bad name carrying the received name", cl_hello,
         {"nonempty": True, "proto_ok": True, "name_present": True, "expected_set": True, "names_equal": False}, "BadNameAPIError",
         normal={"nonempty": True, "proto_ok": True, "name_present": True, "expected_set": True, "names_equal": True},
-        extra=lambda c: (isinstance(c, ast.Call) and len(c.args) == 2 and norm(c.args[1]) == name_expr, f"second argument {norm(c.args[1]) if isinstance(c, ast.Call) and len(c.args) > 1 else None}"),
+        extra=lambda c: (isinstance(c, ast.Call) and call_arg(c, 1, "received_name") is not None and norm(call_arg(c, 1, "received_name")) == name_expr, f"received_name argument {norm(call_arg(c, 1, 'received_name')) if isinstance(c, ast.Call) and call_arg(c, 1, 'received_name') is not None else None}"),
     )
     # -- handshake error frame
     hs = noise.methods["_handle_handshake"]
@@ -293,7 +293,9 @@ def run(ctx: Ctx) -> None:
         okc = okc and ghe.exit not in avoid
     ctx.ob("C04.R1", he, "mapped errors keep their cause", okc, f"{len(causes)} __cause__ assignments")
     sup = [c for c in own_nodes(he.node) if isinstance(c, ast.Call) and isinstance(c.func, ast.Attribute) and c.func.attr == "_handle_error" and norm(c.func.value) == "super()"]
-    ctx.ob("C04.R2", he, "mapped exception is what gets reported (base handler called with it on every path)", len(sup) == 1 and [norm(a) for a in sup[0].args] == [xp] and _on_every_path(ctx, he, sup[0]), f"{[norm(a) for c in sup for a in c.args]}")
+    ctx.ob("C04.R2", he, "the base handler is called once, with one exception, on every path (which one: R1 by paths)", len(sup) == 1 and len(sup[0].args) == 1 and not sup[0].keywords and _on_every_path(ctx, he, sup[0]), f"{[norm(a) for c in sup for a in c.args]}")
+    classes_o, may_o, mst_o, _ = reported_under(ctx, he, {"invalid_tag": False, "reset": False}, cl_he)
+    ctx.ob("C04.R1", he, "any other error is reported unchanged", classes_o == {f"<param {xp}>"} and mst_o, f"reports {sorted(classes_o)}")
     # -- closed
     hc = noise.methods["_handle_closed"]
     expect(hc, "frame after close -> protocol error", lambda t: t == "<unconditional>", "ProtocolAPIError")
@@ -427,6 +429,11 @@ def run(ctx: Ctx) -> None:
                 reports = any(isinstance(c, ast.Call) and isinstance(c.func, ast.Attribute) and c.func.attr in ("_handle_error", "_handle_error_and_close") for b in h.body for c in ast.walk(b))
                 reraises = isinstance(h.body[-1], ast.Raise)
                 ctx.ob("C04.R2", fn, f"except {norm(h.type)} around {sorted(callee_names)} reports or re-raises", reports or reraises, "a frame that fails authentication would be dropped silently and the session would go on", node=h)
+    # every frame that reaches the READY handler is authenticated: no normal exit of the handler avoids the decrypt
+    # (a shortcut for some frames - empty ones, say - lets an inserted frame pass without ending the session)
+    ghf = cfg_of(ctx, hf)
+    dec_nodes = {n for n in ghf.reachable() if any(isinstance(c.func, ast.Attribute) and c.func.attr == "decrypt" for c in node_calls(n))}
+    ctx.ob("C04.R2", hf, "every frame handed to the READY handler goes through decrypt (no exit before it)", bool(dec_nodes) and ghf.exit not in walk(ghf, {}, lambda n: None, blocked=dec_nodes), "a frame can leave the handler unauthenticated and the session goes on")
     # A frame that fails authentication raises out of its handler while the state is still READY / HANDSHAKE; until
     # connection_lost() arrives the only thing that keeps later reads from being delivered is that the failing frame
     # is still at the head of the buffer (it fails again).  So: within one iteration of the receive loop the frame is
@@ -460,6 +467,22 @@ def run(ctx: Ctx) -> None:
         witness is None or not esc,
         f"consumed before dispatch on {fmt_path(witness) if witness else []}; authentication failures escaping the handlers: {esc}",
     )
+
+    # The plaintext helper has no closed state of its own: after a wrong marker was reported it stays fail-closed
+    # because the rejected byte is still at the head of the buffer (every later read fails the marker test again).
+    # So nothing on the report/close path may touch the receive buffer.
+    close_path: list[Func] = []
+    todo_c = [base.methods["_handle_error_and_close"], base.methods["close"], base.methods["_handle_error"]] + [m for k in ("close",) for m in [plain.methods.get(k)] if m is not None]
+    while todo_c:
+        f_ = todo_c.pop()
+        if f_ in close_path:
+            continue
+        close_path.append(f_)
+        for c in own_nodes(f_.node):
+            if isinstance(c, ast.Call):
+                todo_c += [x for x in res.callees(f_, c).funcs if x.module.name.startswith("_frame_helper") and x.cls is not None and x.cls.name != noise.name]
+    touched = [(f_.qualname, tgt.attr) for f_ in close_path for st_, tgt, val in attr_writes(f_) if tgt.attr in ("_buffer", "_buffer_len", "_pos")]
+    ctx.ob("C04.R2", base.methods["close"], f"reporting an error / closing the helper leaves the receive buffer alone ({len(close_path)} functions on that path)", not touched, f"{touched}: with the rejected bytes gone, data that arrives later is parsed and delivered as if nothing had happened (the plaintext helper has no closed state)")
 
     # ------------------------------------------------------------------ R3
     init = noise.methods["__init__"]
